@@ -408,6 +408,12 @@ func (e *Engine) ufApply(st *State, name string, outBits int, parts Slice, injec
 		t = UF("uf_"+sig, SBV(outBits), args...)
 	}
 	// injectivity: inverse per argument, and a tag that separates length signatures
+	if len(args) > 0 {
+		taggedUF["uf_"+sig] = true
+		if injective {
+			injectiveUF["uf_"+sig] = true
+		}
+	}
 	if injective {
 		for i, a := range args {
 			inv := UF(fmt.Sprintf("ufinv%d_%s", i, sig), a.S, t)
